@@ -1042,7 +1042,6 @@ pub struct UnionVariant {
 impl UnionVariant {
     fn is_null_variant(&self) -> bool {
         match &self.tracer {
-            Tracer::Unknown(_) => true,
             Tracer::Primitive(tracer) if matches!(tracer.item_type, DataType::Null) => true,
             _ => false,
         }
